@@ -33,8 +33,9 @@ def verifyLabel (v : PyVal) : Except Err Unit :=
   | .str s => if Gen.re_composeinfo_LABEL_RE_LIST.any (pyMatches · s) then .ok () else .error .valueError
   | _ => .error .typeError
 
-/-- composeinfo `Variant._validate_uid` -/
+/-- composeinfo `Variant._validate_uid` (with the F23 repair: `_assert_type("uid", str)` comes first) -/
 def ciVariantUid (o : Obj) : Except Err Unit :=
+  if !(o.get "uid".toList).isinstance .str then .error .typeError else
   match o.get "parent".toList with
   | .none =>
     match o.get "uid".toList with
@@ -97,7 +98,7 @@ def tiImagePaths (o : Obj) : Except Err Unit :=
       | .dict kv => kv.foldl (fun acc2 (_, path) => acc2.bind fun _ =>
           match path with
           | .str s => if Str.startsWith s ['/'] then .error .valueError else .ok ()
-          | _ => .error .attributeError) (.ok ())
+          | _ => .error .typeError) (.ok ())          -- F23 repair: explicit isinstance check
       | _ => .error .attributeError) (.ok ())
   | _ => .ok ()
 
@@ -114,12 +115,19 @@ def discTimestamp (o : Obj) : Except Err Unit :=
   if !v.truthy then .error .valueError
   else if v.isinstance .float then .ok () else .error .typeError
 
+/-- treeinfo `Checksums._validate_checksum_paths` (runs since the F4 repair): every key of `checksums` is relative -/
+def tiChecksumPaths (o : Obj) : Except Err Unit :=
+  match o.get "checksums".toList with
+  | .dict kvs => if kvs.any (fun kv => Str.startsWith kv.1 ['/']) then .error .valueError else .ok ()
+  | _ => .ok ()
+
 def customTable : List (Str × (Obj → Except Err Unit)) :=
   [("composeinfo.Compose._validate_label:verify_label(self.label)".toList, fun o => verifyLabel (o.get "label".toList)),
    ("composeinfo.Variant._validate_parent_arch".toList, ciVariantParentArch),
    ("composeinfo.Variant._validate_uid".toList, ciVariantUid),
    ("composeinfo.VariantBase._validate_variants".toList, validateVariantKeys),
    ("discinfo.DiscInfo._validate_timestamp".toList, discTimestamp),
+   ("treeinfo.Checksums._validate_checksum_paths".toList, tiChecksumPaths),
    ("treeinfo.Images._validate_image_paths".toList, tiImagePaths),
    ("treeinfo.Images._validate_platforms".toList, tiImagePlatforms),
    ("treeinfo.Variant._validate_uid".toList, tiVariantUid)]
